@@ -274,7 +274,7 @@ def bounded(tier, seed):
                         return n, f, {'kind': kind, 'opts': o, 'flags': flags, 'body_sig': body_sig, 'body': repr(body_vals)}
     # foreign bytes
     for kind in (1, 2, 3, 4):
-        for _ in range(1500 if tier == 'thorough' else 30):
+        for _ in range(8000 if tier == 'thorough' else 30):
             opts = dict(rnd.choice(optsets))
             if kind in (2, 3):
                 opts['reply_serial'] = rnd.choice([1, 9, 2**32 - 1])
